@@ -134,8 +134,10 @@ struct SplineOps {
         break;
       }
       case 7: {
-        In in{op.salt};
-        for (int i = 0; i < 6; ++i) {
+        // different times in every repetition of the call; p[3] bit 2: a long stream of distinct times
+        In in{op.salt + 0x9e3779b97f4a7c15ull * (uint64_t)op.iter};
+        const int n_eval = (op.p[3] & 4) ? 40 : 6;
+        for (int i = 0; i < n_eval; ++i) {
           T v, a;
           const double ti = sp.t_min() + in.unit() * (sp.t_max() - sp.t_min());
           put_elem(out, sp(ti, v, a));
@@ -259,8 +261,9 @@ struct BSplineOps {
         break;
       }
       case 5: {
-        In in{op.salt};
-        for (int i = 0; i < 6; ++i) {
+        In in{op.salt + 0x9e3779b97f4a7c15ull * (uint64_t)op.iter};
+        const int n_eval = (op.p[3] & 4) ? 40 : 6;
+        for (int i = 0; i < n_eval; ++i) {
           T v, a;
           const double ti = bs.t_min() + (in.unit() * 1.2 - 0.1) * (bs.t_max() - bs.t_min());
           put_elem(out, bs(ti, v, a));
